@@ -20,6 +20,30 @@ pub fn dispatch(t: &[&str]) -> Option<String> {
             }
             Some(s)
         }
+        // SeqNr - SeqNr (Sub, and therefore Ord) with the crate's OWN WRAP_TOLERANCE, all 65536 values of new
+        "seqsub_row" => {
+            let b: u16 = t[1].parse().unwrap();
+            let old: v::SeqNr = b.into();
+            let mut s = String::with_capacity(65536 * 7);
+            for n in 0..=65535u16 {
+                if n > 0 {
+                    s.push(',');
+                }
+                let new: v::SeqNr = n.into();
+                let d: isize = new - old;
+                // Ord must agree with the sign of the distance
+                let ord = match new.cmp(&old) {
+                    std::cmp::Ordering::Less => -1,
+                    std::cmp::Ordering::Equal => 0,
+                    std::cmp::Ordering::Greater => 1,
+                };
+                if ord != d.signum() {
+                    s.push_str("ORD");
+                }
+                s.push_str(&format!("{}", d));
+            }
+            Some(s)
+        }
         _ => None,
     }
 }
